@@ -110,6 +110,7 @@ def conn_event(mesh, with_coords=True, scale=None):
     else:
         ev.update(edges=[], t2e=[], f2e=[], bedges=[], p2e=[], e2t=[])
     ev['errs'] = errs
+    ev['ni'] = 1                     # 1: compared with the first event of the scenario (numbering independence)
     if with_coords:
         sc = scale or find_scale(mesh.p[:, :mesh.p.shape[1]])
         pc = int_coords(mesh.p, sc) if sc else None
